@@ -39,6 +39,7 @@ ASSUMPTIONS = [
     "'%2.2e' only values with <= 3 significant digits are letters (documented lossy choice of the caller)",
     "the csv domain line is compared as well when one was written (it is part of the documented format)",
     "to_csv(domain=None) is read with has_domain=False, to_csv(with_header=False) with skip_header=0",
+    "every file is written twice (txt: first a longer table with other names) and the written objects must be unchanged",
 ]
 BOUNDS = {
     "quick": "2-d: all sets of <= 2 of the 36 lattice segments x 3 scales x {header, no header}; 3-d: all sets "
@@ -141,6 +142,11 @@ def _run_2d(case, out):
             if written != _canon2([np.array(s).T for s in segs]):
                 raise RuntimeError("network constructor changed the fractures (harness assumption)")
             net.to_csv(fname, with_header=hdr)
+            net.to_csv(fname, with_header=hdr)  # written twice: the second call replaces the file
+            if _canon2([f.pts for f in net.fractures]) != written:
+                out.violate("to_csv modified the network", **desc)
+                out.ev("VIOLATION")
+                continue
             back = fi.network_2d_from_csv(fname) if hdr else fi.network_2d_from_csv(fname, skip_header=0)
             got = _canon2([f.pts for f in back.fractures])
         except RuntimeError:
@@ -214,6 +220,10 @@ def _run_3d(case, out):
             else:
                 net.to_csv(fname)
                 back = fi.network_3d_from_csv(fname, has_domain=False)
+            if _canon3([f.pts for f in net.fractures]) != written:
+                out.violate("to_csv modified the network", **desc)
+                out.ev("VIOLATION")
+                continue
             got = _canon3([f.pts for f in back.fractures])
             got_box = None if back.domain is None else {k: float(v) for k, v in back.domain.bounding_box.items()}
         except RuntimeError:
@@ -273,7 +283,14 @@ def _run_txt(case, out):
                             data.append(TxtData(nm, arr.copy()) if f == "default" else TxtData(nm, arr.copy(), f))
                         desc = {"names": names, "arrays": [a.tolist() for a in arrays], "formats": list(fmts)}
                         try:
+                            # the file is written twice: first a longer table with other values and names
+                            first = [TxtData("old" + nm, np.arange(r + 2) + 10.0 * k) for k, nm in enumerate(names)]
+                            export_data_to_txt(first, fname)
                             export_data_to_txt(data, fname)
+                            if any(not np.array_equal(d.array, a) or d.array.dtype != a.dtype for d, a in zip(data, arrays)):
+                                out.violate("export_data_to_txt modified the arrays it was given", **desc)
+                                out.ev("VIOLATION")
+                                continue
                             back = read_data_from_txt(fname)
                         except Exception as e:
                             out.violate("txt round trip raised", error=repr(e), **desc)
